@@ -389,3 +389,116 @@ func (r *Run) Finish() int {
 	}
 	return ExitOK
 }
+
+// ---- child processes -----------------------------------------------------
+
+// Blob is what a child process reports to its parent monitor on stdout.
+type Blob struct {
+	Evals      int64              `json:"evals"`
+	Counters   map[string]int64   `json:"counters"`
+	Maxima     map[string]float64 `json:"maxima"`
+	Distinct   []string           `json:"distinct"`
+	Classes    map[string]int64   `json:"classes"`
+	Samples    []any              `json:"samples"`
+	Violations []*Violation       `json:"violations"`
+	ViolSigs   map[string]int     `json:"viol_sigs"`
+	Inconcl    []string           `json:"inconclusive"`
+	Extra      map[string]any     `json:"extra"`
+}
+
+// NewChildRun creates a Run that is not finished with Finish but exported
+// with Blob and merged into the parent's Run.
+func NewChildRun(id, tier string) *Run {
+	r := NewRun(id, tier, "", "")
+	r.findings = nil // known findings are matched in the parent
+	return r
+}
+
+// BlobLine returns the one-line JSON report of a child, prefixed for parsing.
+func (r *Run) BlobLine() string {
+	r.mu.Lock()
+	defer r.mu.Unlock()
+	b := Blob{Evals: r.evals, Counters: r.counters, Maxima: r.maxima, Classes: r.classes, Samples: r.samples,
+		Violations: r.violations, ViolSigs: r.violSigs, Inconcl: r.inconcl, Extra: r.extra}
+	for k := range r.distinct {
+		b.Distinct = append(b.Distinct, hex.EncodeToString([]byte(k)))
+	}
+	out, err := json.Marshal(b)
+	if err != nil {
+		out, _ = json.Marshal(Blob{Inconcl: []string{"child blob not serialisable: " + err.Error()}})
+	}
+	return "VERIF-BLOB " + string(out)
+}
+
+// Merge folds a child's report into the parent run.
+func (r *Run) Merge(b *Blob) {
+	r.mu.Lock()
+	r.evals += b.Evals
+	for k, v := range b.Counters {
+		r.counters[k] += v
+	}
+	for k, v := range b.Maxima {
+		if old, ok := r.maxima[k]; !ok || v > old {
+			r.maxima[k] = v
+		}
+	}
+	for _, k := range b.Distinct {
+		if raw, err := hex.DecodeString(k); err == nil {
+			r.distinct[string(raw)] = struct{}{}
+		}
+	}
+	for k, v := range b.Classes {
+		r.classes[k] += v
+	}
+	for _, s := range b.Samples {
+		if len(r.samples) < r.maxSamples {
+			r.samples = append(r.samples, s)
+		}
+	}
+	r.inconcl = append(r.inconcl, b.Inconcl...)
+	for k, v := range b.Extra {
+		r.extra[k] = v
+	}
+	r.mu.Unlock()
+	for _, v := range b.Violations {
+		r.Violate(v.Signature, v.Summary, v.Detail)
+	}
+	r.mu.Lock()
+	for k, n := range b.ViolSigs { // keep the true multiplicities
+		if n > r.violSigs[k] {
+			r.violSigs[k] = n
+		}
+	}
+	r.mu.Unlock()
+}
+
+// ParseBlob extracts the child's report from its stdout.
+func ParseBlob(stdout []byte) (*Blob, error) {
+	const prefix = "VERIF-BLOB "
+	lines := bytesLines(stdout)
+	for i := len(lines) - 1; i >= 0; i-- {
+		if len(lines[i]) > len(prefix) && string(lines[i][:len(prefix)]) == prefix {
+			var b Blob
+			if err := json.Unmarshal(lines[i][len(prefix):], &b); err != nil {
+				return nil, err
+			}
+			return &b, nil
+		}
+	}
+	return nil, fmt.Errorf("no VERIF-BLOB line in child output")
+}
+
+func bytesLines(b []byte) [][]byte {
+	var out [][]byte
+	start := 0
+	for i, c := range b {
+		if c == '\n' {
+			out = append(out, b[start:i])
+			start = i + 1
+		}
+	}
+	if start < len(b) {
+		out = append(out, b[start:])
+	}
+	return out
+}
